@@ -181,13 +181,15 @@ def r3_insert_before_send(ctx):
 def r4_completion_consumes(ctx):
     F, R = ctx.F, ctx.R
     tr = ctx.tracer(follow_callers=False, follow_fields=False)
+    # the manager's accessors are the unit of reasoning here: do not look through them, however small they are
+    tr_stop = ctx.tracer(follow_callers=False, follow_fields=False, stop_at_call=r"RequestManager::complete_pending_(call|subscription|batch)$")
     n = 0
     for pat in (PSR, r"^jsonrpsee_core::client::async_client::helpers::process_batch_response$"):
         b = F.one(pat)
         R.fn(b)
         for c in b.calls_to(r"oneshot::Sender::<.*>::send$"):
             n += 1
-            lv = tr.origins(b, c.args[0])
+            lv = tr_stop.origins(b, c.args[0])
             ok = bool(lv) and all(l.kind == "call" and re.search(r"RequestManager::complete_pending_(call|subscription|batch)$", l.detail["callee"] or "") for l in lv)
             R.check(ok, "C03.R4", "%s:sender-from-complete#%d" % (short(b.path).split("::")[-1], sorted(x.bb for x in b.calls_to(r"oneshot::Sender::<.*>::send$")).index(c.bb)), "the completed sender was taken out of the manager by complete_pending_*", "a call is completed with a sender that was not removed from the manager (%s): the same id could be completed twice" % [flow.leaf_str(l) for l in lv], where(c))
     R.floor("C03.R4", n, 5, "oneshot completions in the response path")
